@@ -45,6 +45,46 @@ func c10fd() {
 		return
 	}
 	d.AddUser("root", "rootpw", true) //nolint:errcheck
+	sock := filepath.Join(dir, "fd.sock")
+	lc := filepath.Join(dir, "listener.yml")
+	os.WriteFile(lc, []byte("saslauthd:\n  listen:\n    - "+sock+"\n"), 0600) //nolint:errcheck
+	fdExhaustion(R, "c10", "agent", sock, func(limit int) string {
+		return fmt.Sprintf("ulimit -n %d; exec %s --store %s run --listener %s", limit, bin, cfg, lc)
+	})
+}
+
+func init() { stages["c05fd"] = c05fd; stages["c05srv"] = c05srv }
+
+// c05srv <socket>: the sasl package's server alone, with a fixed callback (root / rootpw).
+func c05srv() {
+	srv, err := sasl.NewServer(os.Args[2], func(login, password, service, realm string) (bool, string, error) {
+		return login == "root" && password == "rootpw", "", nil
+	})
+	if err != nil {
+		fmt.Fprintln(os.Stderr, err)
+		os.Exit(2)
+	}
+	err = srv.Run()
+	fmt.Fprintln(os.Stderr, "Run returned:", err)
+	os.Exit(3)
+}
+
+// c05fd: "any number of concurrent connections" includes more than the process has descriptors for.
+func c05fd() {
+	R := vr.New("C05", "fd-exhaustion", "the sasl package's server runs alone in a child process with a low RLIMIT_NOFILE; idle client connections are opened until the process has no descriptor left (observed in /proc/<pid>/fd), one more client connects and sends a complete request while accept fails, then the idle connections are closed; the late client and fresh requests must all get their reply (positive for the right password, negative for a wrong one) and the server must still be running. Non-trivial: every round in which the descriptor table was observed full; distinct by (limit, round)")
+	defer R.Write()
+	dir := filepath.Join(workDir(), "c05fd")
+	os.RemoveAll(dir)      //nolint:errcheck
+	os.MkdirAll(dir, 0700) //nolint:errcheck
+	sock := filepath.Join(dir, "fd.sock")
+	self, _ := os.Executable()
+	fdExhaustion(R, "c05", "server", sock, func(limit int) string {
+		return fmt.Sprintf("ulimit -n %d; exec %s c05srv %s", limit, self, sock)
+	})
+}
+
+// fdExhaustion is the common body: what is the process (agent / server) called, and how is it started under a limit.
+func fdExhaustion(R *vr.Result, pfx, what, sock string, command func(limit int) string) {
 	for _, limit := range []int{40, 64} {
 		for round := 0; round < vr.Pick(2, 6); round++ {
 			id := fmt.Sprintf("limit%d/r%d", limit, round)
@@ -52,11 +92,9 @@ func c10fd() {
 				continue
 			}
 			R.Mark(id)
-			sock := filepath.Join(dir, "fd.sock")
 			os.Remove(sock) //nolint:errcheck
-			lc := filepath.Join(dir, "listener.yml")
-			os.WriteFile(lc, []byte("saslauthd:\n  listen:\n    - "+sock+"\n"), 0600) //nolint:errcheck
-			cmd := exec.Command("sh", "-c", fmt.Sprintf("ulimit -n %d; exec %s --store %s run --listener %s", limit, bin, cfg, lc))
+			cmd := exec.Command("sh", "-c", command(limit))
+			cmd.Env = append(os.Environ(), "VERIF_OUT=", "VERIF_MARK=")
 			cmd.SysProcAttr = &syscall.SysProcAttr{Pdeathsig: syscall.SIGKILL}
 			if err := cmd.Start(); err != nil {
 				R.Fatal = err.Error()
@@ -73,7 +111,7 @@ func c10fd() {
 			if !ok {
 				cmd.Process.Kill() //nolint:errcheck
 				cmd.Wait()         //nolint:errcheck
-				R.Inconcl("agent did not create its socket with ulimit -n " + fmt.Sprint(limit))
+				R.Inconcl(what + " did not create its socket with ulimit -n " + fmt.Sprint(limit))
 				continue
 			}
 			pid := cmd.Process.Pid
@@ -133,17 +171,17 @@ func c10fd() {
 				return len(b) > 0 && !strings.Contains(string(b), ") Z ")
 			}()
 			if !alive {
-				R.Violate("c10:agent-exits-after-descriptor-exhaustion", "the agent process is gone after its descriptors were exhausted", id, wit)
+				R.Violate(pfx+":"+what+"-exits-after-descriptor-exhaustion", "the "+what+" process is gone after its descriptors were exhausted", id, wit)
 			}
 			if lerr == nil {
 				select {
 				case a := <-lateAns:
 					R.Count("late_client:"+strings.SplitN(a, ":", 2)[0], 1)
 					if a != "ok" && full {
-						R.Violate("c10:request-unanswered-after-descriptor-exhaustion:late-client", "the client that connected while accept() was failing got: "+a, id, wit)
+						R.Violate(pfx+":request-unanswered-after-descriptor-exhaustion:late-client", "the client that connected while accept() was failing got: "+a, id, wit)
 					}
 				case <-time.After(45 * time.Second):
-					R.Violate("c10:request-unanswered-after-descriptor-exhaustion:late-client", "no answer within the 45 s watchdog", id, wit)
+					R.Violate(pfx+":request-unanswered-after-descriptor-exhaustion:late-client", "no answer within the 45 s watchdog", id, wit)
 				}
 			}
 			// fresh requests afterwards
@@ -163,8 +201,11 @@ func c10fd() {
 				}
 			}
 			R.Count("fresh_requests_answered", good)
+			if okw, _, errw := sasl.NewClient(sock).Auth("root", "wrong", "s", ""); okw || errw != nil {
+				R.Violate(pfx+":wrong-password-after-descriptor-exhaustion", fmt.Sprintf("a request with a wrong password afterwards: ok=%v err=%v", okw, errw), id, wit)
+			}
 			if good != 5 {
-				R.Violate("c10:agent-stops-accepting-after-descriptor-exhaustion", fmt.Sprintf("after the idle connections were closed only %d of 5 new requests on the saslauthd socket were answered", good), id, wit)
+				R.Violate(pfx+":"+what+"-stops-accepting-after-descriptor-exhaustion", fmt.Sprintf("after the idle connections were closed only %d of 5 new requests on the saslauthd socket were answered", good), id, wit)
 			}
 			cmd.Process.Kill() //nolint:errcheck
 			cmd.Wait()         //nolint:errcheck
